@@ -404,6 +404,12 @@ void PropertyHDF5::values(const std::vector<Variant> &values) {
     if (dt != data_type_from_h5(dset.dataType())) {
         throw std::invalid_argument("Inconsistent DataTypes!");
     }
+    // all values must have the type of the property: check before the data set is resized
+    for (const Variant &val : values) {
+        if (val.type() != dt) {
+            throw std::invalid_argument("Inconsistent DataTypes!");
+        }
+    }
     dset.setExtent(NDSize{values.size()});
 
     switch(values[0].type()) {
